@@ -11,9 +11,9 @@ from . import tlc
 from .frontends import c2s, s2c
 from .pool import pmap
 
-TITLES = [("a", 1), ("a", 2), ("a-1", 1), ("b", 2), ("A b", 3), ("É x", 2)]
+TITLES = [("a", 1), ("a", 2), ("a-1", 1), ("b", 2), ("A b", 3), ("É x", 2), ("a\nb", 1)]     # (a\nb: a setext heading over two lines)
 TARGETS = [("x", "next"), ("a", "next"), ("Tt", "next"), ("w", "quote")]
-LINKS = ([(n, "text") for n in ("a", "a-1", "a-2", "a-1-1", "b", "a-b", "x", "zz", "A", "X", "tt", "Tt", "é-x", "w")]
+LINKS = ([(n, "text") for n in ("a", "a-1", "a-2", "a-1-1", "b", "a-b", "x", "zz", "A", "X", "tt", "Tt", "é-x", "w", "ab")]
          + [(n, "empty") for n in ("a", "x", "zz", "b", "Tt", "a-1", "w", "é-x")]
          + [(n, "auto") for n in ("a", "x", "é-x", "zz", "w")])
 
@@ -45,7 +45,12 @@ def doc_text(items, links, wrap="none"):
     lines = []
     for n, it in enumerate(items):
         if it[0] == "h":
-            lines += ["#" * it[2] + " " + it[1], ""]
+            if n % 4 == 2 and "\n" not in it[1]:
+                lines.append("{#xid%d}" % n)          # an explicit id on the heading (attrs_block): the slug rules are unchanged
+            if "\n" in it[1]:
+                lines += it[1].split("\n") + ["===" if it[2] == 1 else "---", ""]        # setext: the title spans source lines
+            else:
+                lines += ["#" * it[2] + " " + it[1], ""]
         else:
             lines.append(f"({it[1]})=")
             if len(it) > 2 and it[2] == "quote":
@@ -85,7 +90,7 @@ def observe(text, depth, items, links, slug_func=None):
     """render with docutils and project: slugs [[slug, item]], res per link, texts, warnings"""
     from docutils import nodes
     from .frontends import docutils_doctree
-    ov = {"myst_heading_anchors": depth}
+    ov = {"myst_heading_anchors": depth, "myst_enable_extensions": ["attrs_block"]}
     if slug_func is not None:
         ov["myst_heading_slug_func"] = slug_func
     doc, warns = docutils_doctree(text, ov)
